@@ -974,8 +974,13 @@ def json_compat_obj_decode(data_type, obj, caller_permissions=None,
         return decoder.make_stone_friendly(
             data_type, obj, True)
     else:
-        return decoder.json_compat_obj_decode_helper(
+        decoded = decoder.json_compat_obj_decode_helper(
             data_type, obj)
+        if isinstance(data_type, (bv.List, bv.Map, bv.Nullable)):
+            # Items of a top-level container are never assigned to a field,
+            # so nothing else validates them.
+            decoded = data_type.validate(decoded)
+        return decoded
 
 def _strftime(dt, fmt):
     return dt.strftime(fmt)
